@@ -6,7 +6,8 @@ Group `Codec` (coq/Gen/Codec.v), regenerated from /repo on every run:
     sc_io_noncompress_bound;
   * expression slices of sc_io_encode_zlib (number of lines, text size, bytes per line) and of
     sc_io_decode (number of lines, size of the decode buffer, the guard that rejects an input too
-    short to hold its line break, remaining code bytes, code bytes per line).
+    short to hold its line break, remaining code bytes, code bytes per line, the guard that rejects a
+    declared size above 1032 times the compressed bytes).
 The C07 safety theorem is stated about a model that calls these generated definitions, so an edit of
 the index arithmetic in /repo changes the definitions the proof is checked against.
 """
@@ -131,6 +132,9 @@ def register(GROUPS, c2g, incs, REPO, HERE, STRUCTS, Group):
             t, i = c2g.translate_slice(fdec, var, gname, occurrence=occ)
             g.add(t, i)
         t, i = cond_slice(fdec, ("encoded_size", "base64_lines"), "dec_guard_short")
+        g.add(t, i)
+        # the guard of commit 5c6a588: a declared size that the compressed data cannot produce is refused
+        t, i = cond_slice(fdec, ("encoded_size", "ocnt"), "dec_guard_ratio")
         g.add(t, i)
         return g, [fe, fd, fio]
 
